@@ -544,6 +544,73 @@ func TestC19(t *testing.T) {
 	}
 	samples = append(samples, fmt.Sprintf("blocks enumerated: %d distinct contents", len(bh)))
 
+	// ---------------- 5b. anti-MEV blocks built from a pre-block and M pre-commit data items
+	ah := map[U]string{}
+	magic := func(x uint32) []byte { b := make([]byte, 4); binary.BigEndian.PutUint32(b, x); return b }
+	for _, bi := range heights {
+		for _, prev := range hpool[:2] {
+			for _, ts := range tss {
+				for _, n := range nonces[:2] {
+					for _, txs := range orderedSelections(txpool[:3], 3) {
+						for _, sum := range [][]uint32{{0, 0, 0}, {1, 0, 0}, {1, 1, 5}, {7, 0, 0}} {
+							total := sum[0] + sum[1] + sum[2]
+							key := fmt.Sprintf("amev idx=%d prev=%x ts=%d nonce=%d txs=%x magic-sum=%d", bi, prev[:2], ts, n, txs, total)
+							mkb := func() dbft.Block[U] {
+								pre := consensus.NewPreBlock(ts, bi, prev, n, append([]U(nil), txs...))
+								tt := make([]dbft.Transaction[U], len(txs))
+								for i, h := range txs {
+									x := consensus.Tx64(binary.LittleEndian.Uint64(h[:8]))
+									tt[i] = &x
+								}
+								pre.SetTransactions(tt)
+								return consensus.NewAMEVBlock(pre, [][]byte{magic(sum[0]), magic(sum[1]), magic(sum[2])}, 3)
+							}
+							b1, b2 := mkb(), mkb()
+							h1 := b1.Hash()
+							r.evals++
+							if h1 != b2.Hash() {
+								r.fail("C19/amev-block/hash-not-content-only", key)
+							}
+							if (h1 == U{}) {
+								r.fail("C19/amev-block/complete-block-without-hash", key)
+							}
+							if old, ok := ah[h1]; ok && old != key {
+								r.fail("C19/amev-block/hash-collision", fmt.Sprintf("different content, equal hash: %q vs %q", old, key))
+							}
+							ah[h1] = key
+							if _, clash := bh[h1]; clash {
+								r.fail("C19/amev-block/hash-collides-with-plain-block", key)
+							}
+						}
+					}
+				}
+			}
+		}
+	}
+	{
+		pre := consensus.NewPreBlock(3*sec, 7, hpool[0], 5, []U{txpool[0]})
+		x := consensus.Tx64(1)
+		pre.SetTransactions([]dbft.Transaction[U]{&x})
+		b := consensus.NewAMEVBlock(pre, [][]byte{magic(1), magic(2), magic(3)}, 3)
+		h0 := b.Hash()
+		if err := b.Sign(priv); err != nil {
+			r.fail("C19/amev-block/sign-error", err.Error())
+		} else {
+			r.evals += 3
+			if b.Hash() != h0 {
+				r.fail("C19/amev-block/hash-depends-on-signature", "")
+			}
+			if b.Verify(pub, b.Signature()) != nil {
+				r.fail("C19/amev-block/valid-signature-rejected", "")
+			}
+			if b.Verify(pub2, b.Signature()) == nil {
+				r.fail("C19/amev-block/signature-verifies-under-other-key", "")
+			}
+		}
+	}
+	r.nontrv += int64(len(ah))
+	samples = append(samples, fmt.Sprintf("anti-MEV blocks enumerated: %d distinct contents", len(ah)))
+
 	// ---------------- 6. ECDSA
 	type kp struct {
 		priv dbft.PrivateKey
